@@ -19,13 +19,13 @@ template <typename M, typename N>
     requires(is_integral_v<M> and not is_same_v<M, bool> and is_integral_v<N> and not is_same_v<N, bool>)
 [[nodiscard]] constexpr auto lcm(M m, N n) -> common_type_t<M, N>
 {
-    using R = common_type_t<M, N>;
-    if (m == 0 or n == 0) {
+    using R      = common_type_t<M, N>;
+    auto const a = etl::detail::gcd_abs<R>(m);
+    auto const b = etl::detail::gcd_abs<R>(n);
+    if (a == 0 or b == 0) {
         return R{0};
     }
-    auto const g = etl::gcd(m, n);
-    auto const r = static_cast<R>((static_cast<R>(m) / g) * static_cast<R>(n));
-    return r < 0 ? static_cast<R>(-r) : r;
+    return static_cast<R>(static_cast<R>(a / etl::gcd(a, b)) * b);
 }
 
 } // namespace etl
